@@ -62,6 +62,14 @@ func c14(c *Ctx) {
 		N = c.N(1200, 8000)
 	}
 	var caseNo int64
+	// first use of every decoder by 12 goroutines at once (and again in fresh child processes): whatever a type builds on first use
+	// (lookup tables, compiled patterns) is built under contention
+	if c.MBatch < 2 || c.Mode == "firstuse" {
+		c14FirstUse(c, zone)
+	}
+	if c.Mode == "firstuse" {
+		return
+	}
 	defer c14Concurrent(c, zone)
 
 	viol := func(key, what string, w map[string]any) {
@@ -693,4 +701,78 @@ func c14Concurrent(c *Ctx, zone string) {
 	}
 	wg.Wait()
 	c.Res.Count("concurrent-roundtrips", int64(G*per))
+}
+
+// c14FirstUse: each stage is the simultaneous first use of one type's JSON / text decoder. The value of goroutine g is encoded,
+// decoded into a fresh variable and encoded again: the two encodings are the same text.
+func c14FirstUse(c *Ctx, zone string) {
+	const G = 12
+	again := func(typ string, g int, v any, fresh any) {
+		c.Res.Eval(1)
+		js, err := json.Marshal(v)
+		if err != nil {
+			return
+		}
+		if err := json.Unmarshal(js, fresh); err != nil {
+			c.Res.Violate("C14:first-use:"+typ, fmt.Sprintf("%s: JSON %s is rejected when %d goroutines use the decoder for the first time in the process at the same moment: %v (TZ=%s)", typ, js, G, err, zone), map[string]any{"json": string(js), "zone": zone}, -10)
+			return
+		}
+		js2, err := json.Marshal(reflect.ValueOf(fresh).Elem().Interface())
+		if err != nil || string(js2) != string(js) {
+			c.Res.Violate("C14:first-use:"+typ, fmt.Sprintf("%s: JSON %s decodes to a value whose JSON is %s (err %v) when %d goroutines use the decoder for the first time in the process at the same moment (TZ=%s)", typ, js, js2, err, G, zone), map[string]any{"json": string(js), "zone": zone}, -10)
+		}
+	}
+	day := func(g int) types.Date { return types.ToDate(2021+g, time.Month(1+g%12), 10+g) }
+	firstUse(c, "C14:first-use", "a JSON / text decoder of the value types", G,
+		func(g int) { again("TaskType", g, types.TaskType(g%13), new(types.TaskType)) },
+		func(g int) {
+			c.Res.Eval(1)
+			name := types.TaskType((g + 5) % 13).String()
+			var tt types.TaskType
+			v, err := tt.UnmarshalTSV(name)
+			got := ""
+			switch x := v.(type) {
+			case *types.TaskType:
+				if x != nil {
+					got = x.String()
+				}
+			case types.TaskType:
+				got = x.String()
+			}
+			if err != nil || got != name {
+				c.Res.Violate("C14:first-use:TaskType.text", fmt.Sprintf("task type %q parsed from text as %q (err %v) when %d goroutines use the parser for the first time at the same moment", name, got, err, G), map[string]any{"text": name}, -10)
+			}
+		},
+		func(g int) {
+			again("Task", g, types.Task{Task: types.TaskType((g + 3) % 13), Door: uint8(1 + g%4), From: day(g), To: day(g + 1), Weekdays: types.Weekdays{time.Monday: true, time.Weekday(g % 7): true}, Start: types.NewHHmm(g, 2*g), Cards: uint8(g)}, new(types.Task))
+		},
+		func(g int) {
+			again("Date", g, day(g), new(types.Date))
+			c.Res.Eval(1)
+			if d, err := types.ParseDate(day(g).String()); err != nil || d.String() != day(g).String() {
+				c.Res.Violate("C14:first-use:Date.text", fmt.Sprintf("date %v parsed from text as %v (err %v) when %d goroutines use the parser for the first time at the same moment (TZ=%s)", day(g), d, err, G, zone), map[string]any{"zone": zone}, -10)
+			}
+		},
+		func(g int) {
+			again("DateTime", g, types.DateTime(time.Date(2021, time.June, 15, 12, 30+g, g, 0, time.Local)), new(types.DateTime))
+		},
+		func(g int) {
+			again("Card", g, types.Card{CardNumber: uint32(8000000 + g), From: day(g), To: day(g + 2), Doors: map[uint8]uint8{1: uint8(g), 2: 0, 3: 1, 4: uint8(g + 29)}, PIN: types.PIN(1000 + g)}, new(types.Card))
+		},
+		func(g int) {
+			again("TimeProfile", g, types.TimeProfile{ID: uint8(2 + g), LinkedProfileID: uint8(3 + g), From: day(g), To: day(g + 1), Weekdays: types.Weekdays{time.Tuesday: true, time.Weekday(g % 7): true},
+				Segments: types.Segments{1: {Start: types.NewHHmm(8, g), End: types.NewHHmm(9, g)}, 2: {Start: types.NewHHmm(12, g), End: types.NewHHmm(13, 2*g)}, 3: {Start: types.NewHHmm(17, 0), End: types.NewHHmm(18+g%5, 0)}}}, new(types.TimeProfile))
+		},
+		func(g int) {
+			again("HHmm", g, types.NewHHmm(g, 59-g), new(types.HHmm))
+			again("PIN", g, types.PIN(999000+g), new(types.PIN))
+			again("Version", g, types.Version(0x0800+g), new(types.Version))
+			again("ControlState", g, types.ControlState(1+g%3), new(types.ControlState))
+			c.Res.Eval(1)
+			want := fmt.Sprintf("%02d:%02d", g, 59-g)
+			if h, err := types.HHmmFromString(want); err != nil || h == nil || h.String() != want {
+				c.Res.Violate("C14:first-use:HHmm.text", fmt.Sprintf("time %q parsed from text as %v (err %v) when %d goroutines use the parser for the first time at the same moment", want, h, err, G), nil, -10)
+			}
+		},
+	)
 }
